@@ -346,6 +346,17 @@ func init() {
 					gos = append(gos, s.GoSource(name))
 				}
 			}
+			for i, txt := range shareErrGrammars {
+				for wb := 0; wb < 2; wb++ {
+					s := ParseGSpec(txt)
+					s.WithBounds, s.ShareErr = wb == 1, true
+					name := fmt.Sprintf("h%03d_%d", i, wb)
+					specs = append(specs, s)
+					names = append(names, name)
+					loxs = append(loxs, s.Lox())
+					gos = append(gos, s.GoSource(name))
+				}
+			}
 			for i, txt := range reinjectGrammars {
 				for wb := 0; wb < 2; wb++ {
 					s := ParseGSpec(txt)
